@@ -21,9 +21,9 @@ func init() {
 }
 
 var profiles = map[string]vh.GenProfile{
-	"C01": {MinOps: 5, MaxOps: 14, MaxNodes: 2, MaxSess: 3, Negative: 2, Reports: 2, RuleChurn: 8, Reassoc: 2, Takeover: true},
-	"C04": {MinOps: 10, MaxOps: 40, MaxNodes: 3, MaxSess: 12, Negative: 8, Reports: 3, RuleChurn: 3, Reassoc: 3, SeidClasses: true, Takeover: true, TxTimeouts: true},
-	"C05": {MinOps: 10, MaxOps: 35, MaxNodes: 3, MaxSess: 8, Negative: 3, Reports: 4, RuleChurn: 8, Reassoc: 3, ExtraSock: true, Takeover: true, Dups: 2, DLDR: true, TxTimeouts: true},
+	"C01": {MinOps: 5, MaxOps: 14, MaxNodes: 2, MaxSess: 3, Negative: 2, Reports: 2, RuleChurn: 8, Reassoc: 2, Takeover: true, LateAnswers: true},
+	"C04": {MinOps: 10, MaxOps: 40, MaxNodes: 3, MaxSess: 12, Negative: 8, Reports: 3, RuleChurn: 3, Reassoc: 3, SeidClasses: true, Takeover: true, TxTimeouts: true, LateAnswers: true},
+	"C05": {MinOps: 10, MaxOps: 35, MaxNodes: 3, MaxSess: 8, Negative: 3, Reports: 4, RuleChurn: 8, Reassoc: 3, ExtraSock: true, Takeover: true, Dups: 2, DLDR: true, TxTimeouts: true, LateAnswers: true},
 	"C08": {MinOps: 8, MaxOps: 30, MaxNodes: 3, MaxSess: 6, Negative: 10, Reports: 2, RuleChurn: 4, Reassoc: 2, ExtraSock: true, Takeover: true, Dups: 5},
 	"C11": {MinOps: 10, MaxOps: 40, MaxNodes: 2, MaxSess: 4, Negative: 1, Reports: 10, RuleChurn: 8, Reassoc: 1, NoDupCreate: true, URRHeavy: true, TxTimeouts: true},
 	"C12": {MinOps: 8, MaxOps: 30, MaxNodes: 1, MaxSess: 1, Negative: 0, Reports: 1, RuleChurn: 14, Reassoc: 0, NoDupCreate: true, URRHeavy: true, OneSession: true},
@@ -253,6 +253,7 @@ func runHist(res *vh.Result, prop string) {
 		res.Count("retransmissions_checked", int64(an.Dups))
 		res.Count("report_requests_given_up_after_all_retries(steps)", int64(an.TxTimeouts))
 		res.Count("report_request_retransmissions_seen", int64(an.Retrans))
+		res.Count("late_answers_to_report_requests", int64(an.LateAnswers))
 		if i < 2 {
 			res.Sample(map[string]interface{}{"history": h.Summary(), "ops": h.Ops})
 		}
